@@ -140,7 +140,8 @@ def one(ctx, desc, kw, stream):
     nonfinite = [(p["phase"], r["name"], c, repr(r[c])) for p in obs["phases"] for r in p["rows"]
                  for c in sysdesc.NUMCOLS if r.get(c) is not None and not math.isfinite(r[c])]
     if nonfinite:
-        ctx.oracle(desc, "finite", "solve", {"place": place}, {"cells": nonfinite[:6], "solve_kw": kw})
+        neg = any(c["kind"] == "source" and c["args"]["vo"] < 0 and abs(c["args"].get("rs", 0.0)) > 0 for c in desc["comps"])
+        ctx.oracle(desc, "finite", "solve", {"neg_source_rs": neg}, {"cells": nonfinite[:6], "solve_kw": kw, "place": place})
         return
     model = solved.cert(ctx.drv, desc, obs)
     if not model.get("ok"):
